@@ -350,7 +350,7 @@ func (in *Interp) strCompare(x, y Value) Value {
 			if a == b {
 				return mkInt(0, 64)
 			}
-			lt := c.Cmp(smt.OpULt, a.Rank, b.Rank)
+			lt := c.Cmp(smt.OpULt, a.RankOf(in, ta), b.RankOf(in, ta))
 			return mkSymInt(c.Ite(lt, c.BV(^uint64(0), 64), c.BV(1, 64)))
 		}
 		if s, ok := y.ConcStr(); ok && s == "" {
